@@ -1,133 +1,33 @@
-import Prom.Lemmas.C04Aux
+import Prom.Lemmas.C04Esc
 
 namespace Prom.C04
 open Prom Prom.Text Prom.TextParse
 /-- the fast path (copy up to the first special byte) is equivalent to escaping every byte -/
-theorem escape_eq_flatMap (q : Bool) (v : Str) : escapeString q v = v.flatMap (escByte q) := by
-  have key : ∀ (l : Str), (∀ b ∈ l, isSpecial q b = false) → l.flatMap (escByte q) = l := by
-    intro l
-    induction l with
-    | nil => intro _; rfl
-    | cons a t ih =>
-      intro h
-      have ha := h a (by simp)
-      simp only [isSpecial, Bool.or_eq_false_iff, Bool.and_eq_false_iff] at ha
-      have e : escByte q a = [a] := by
-        unfold escByte
-        rcases ha with ⟨⟨h1, h2⟩, h3⟩
-        simp only [h1, h2, Bool.false_eq_true, if_false]
-        rcases h3 with h3 | h3 <;> simp [h3]
-      simp only [List.flatMap_cons, e, List.singleton_append]
-      rw [ih (fun b hb => h b (by simp [hb]))]
-  unfold escapeString
-  cases hf : v.findIdx? (isSpecial q) with
-  | none =>
-    rw [List.findIdx?_eq_none_iff] at hf
-    simp only []
-    exact (key v (fun b hb => by simpa using hf b hb)).symm
-  | some i =>
-    simp only []
-    rw [List.findIdx?_eq_some_iff_getElem] at hf
-    obtain ⟨hi, _, hbefore⟩ := hf
-    have hsplit : v = v.take i ++ v.drop i := (List.take_append_drop i v).symm
-    conv => rhs; rw [hsplit, List.flatMap_append]
-    congr 1
-    apply (key _ _).symm
-    intro b hb
-    obtain ⟨j, hj, rfl⟩ := List.mem_iff_getElem.1 hb
-    simp only [List.length_take] at hj
-    have hji : j < i := by omega
-    have := hbefore j hji
-    simp only [List.getElem_take]
-    simpa using this
+theorem escape_eq_flatMap (q : Bool) (v : Str) : escapeString q v = v.flatMap (escByte q) :=
+  Esc.escape_eq_flatMap q v
 
 /-- **unescape_escape** — a reader that undoes `\\`, `\n` (and `\"` for label values) recovers
     exactly the original bytes, whatever they are (quotes, backslashes, newlines, CR, NUL,
     multi-byte characters, a literal backslash followed by `n`, …) -/
-theorem unescape_escape (q : Bool) (v : Str) : unescape q (escapeString q v) = some v := by
-  rw [escape_eq_flatMap]
-  induction v with
-  | nil => rfl
-  | cons a t ih =>
-    simp only [List.flatMap_cons]
-    by_cases h1 : a = 92
-    · subst h1
-      rw [escByte_bs]
-      show unescape q (92 :: 92 :: List.flatMap (escByte q) t) = some (92 :: t)
-      rw [unescape, ih]; rfl
-    · by_cases h2 : a = 10
-      · subst h2
-        rw [escByte_lf]
-        show unescape q (92 :: 110 :: List.flatMap (escByte q) t) = some (10 :: t)
-        rw [unescape, ih]; rfl
-      · by_cases h3 : q = true ∧ a = 34
-        · obtain ⟨hq, ha⟩ := h3
-          subst ha; subst hq
-          rw [escByte_quote]
-          show unescape true (92 :: 34 :: List.flatMap (escByte true) t) = some (34 :: t)
-          rw [unescape]
-          simp [ih]
-        · rw [escByte_other q a h1 h2 h3]
-          show unescape q (a :: List.flatMap (escByte q) t) = some (a :: t)
-          rw [unescape_cons_other q a _ h1, ih]; rfl
+theorem unescape_escape (q : Bool) (v : Str) : unescape q (escapeString q v) = some v :=
+  Esc.unescape_escape q v
 
 /-- **escape_no_newline** — an escaped help text or label value never contains a line feed: no
     help text or label value can add or end a line -/
-theorem escape_no_newline (q : Bool) (v : Str) : (10 : UInt8) ∉ escapeString q v := by
-  rw [escape_eq_flatMap]
-  intro h
-  rw [List.mem_flatMap] at h
-  obtain ⟨b, _, hb⟩ := h
-  by_cases h1 : b = 92
-  · subst h1; rw [escByte_bs] at hb; simp at hb
-  · by_cases h2 : b = 10
-    · subst h2; rw [escByte_lf] at hb; simp at hb
-    · by_cases h3 : q = true ∧ b = 34
-      · obtain ⟨hq, hb34⟩ := h3; subst hq; subst hb34; rw [escByte_quote] at hb; simp at hb
-      · rw [escByte_other q b h1 h2 h3] at hb
-        simp at hb
-        exact h2 hb.symm
+theorem escape_no_newline (q : Bool) (v : Str) : (10 : UInt8) ∉ escapeString q v :=
+  Esc.escape_no_newline q v
 
 /-- in label-value mode every quote in the output is escaped: reading the quoted value stops exactly
     at the closing quote the encoder writes, and returns the escaped text unchanged -/
 theorem quoted_value_reads_back (v : Str) (rest : Str) :
-    ∀ acc, readQuoted (v.flatMap (escByte true) ++ 34 :: rest) acc = some (acc.reverse ++ v.flatMap (escByte true), rest) := by
-  induction v with
-  | nil => intro acc; simp [readQuoted]
-  | cons a t ih =>
-    intro acc
-    simp only [List.flatMap_cons, List.append_assoc]
-    by_cases h1 : a = 92
-    · subst h1
-      rw [escByte_bs]
-      show readQuoted (92 :: 92 :: (List.flatMap (escByte true) t ++ 34 :: rest)) acc = _
-      rw [readQuoted, ih]
-      simp
-    · by_cases h2 : a = 10
-      · subst h2
-        rw [escByte_lf]
-        show readQuoted (92 :: 110 :: (List.flatMap (escByte true) t ++ 34 :: rest)) acc = _
-        rw [readQuoted, ih]
-        simp
-      · by_cases h3 : a = 34
-        · subst h3
-          rw [escByte_quote]
-          show readQuoted (92 :: 34 :: (List.flatMap (escByte true) t ++ 34 :: rest)) acc = _
-          rw [readQuoted, ih]
-          simp
-        · rw [escByte_other true a h1 h2 (by simp [h3])]
-          show readQuoted (a :: (List.flatMap (escByte true) t ++ 34 :: rest)) acc = _
-          rw [readQuoted_cons_other a _ _ h1 h3, ih]
-          simp
+    ∀ acc, readQuoted (v.flatMap (escByte true) ++ 34 :: rest) acc = some (acc.reverse ++ v.flatMap (escByte true), rest) :=
+  Esc.quoted_value_reads_back v rest
 
 /-- label value round trip: quoted reader + unescape recover the value -/
 theorem label_value_roundtrip (v rest : Str) :
     (readQuoted (escapeString true v ++ 34 :: rest) []).bind (fun p => (unescape true p.1).map (fun x => (x, p.2)))
-      = some (v, rest) := by
-  rw [escape_eq_flatMap, quoted_value_reads_back]
-  simp only [List.reverse_nil, List.nil_append, Option.bind_some]
-  rw [← escape_eq_flatMap, unescape_escape]
-  rfl
+      = some (v, rest) :=
+  Esc.label_value_roundtrip v rest
 
 /-- **append_only** — the model of `encode` returns exactly what is appended to the caller's buffer;
     on an error what was written before the failing family/sample is a prefix-preserving extension
